@@ -124,6 +124,10 @@ func fleetProfile(name, prop string, fr FleetRun) *Profile {
 		if fr.Mons != nil {
 			f.Mon = fr.Mons(f)
 		}
+		if propertyOverride == "C17" {
+			f.Mon = append(f.Mon, &MonCancel{})
+			f.Cfg.CancelRate = pick(env.Tape, "cfg-cancel", 10, 0, 25)
+		}
 		if fr.Custom != nil {
 			fr.Custom(f)
 		} else {
